@@ -402,6 +402,8 @@ func c16WellKnown(c *mon.Ctx, st *scriptedTransport) {
 		"quoted-argument-mentions-max-age": {"Cache-Control": `community="UCI,max-age=5,x"`, "Expires": exp.Format("Mon, 02 Jan 2006 15:04:05 MST")},
 		// the quoted-string form of the argument, which recipients ought to accept
 		"max-age-quoted": {"Cache-Control": `max-age="100"`, "Expires": exp.Format("Mon, 02 Jan 2006 15:04:05 MST")},
+		// ... and a quoted argument with an escaped quote in it, which does not end the argument
+		"quoted-argument-with-escaped-quote": {"Cache-Control": `community="a\",max-age=5,\""`, "Expires": exp.Format("Mon, 02 Jan 2006 15:04:05 MST")},
 	}
 	expS := exp.Format("Mon, 02 Jan 2006 15:04:05 MST")
 	extra := map[string][][2]string{
@@ -446,7 +448,7 @@ func c16WellKnown(c *mon.Ctx, st *scriptedTransport) {
 			switch name {
 			case "none", "malformed":
 				ok = res.CacheExpiresAt == 0
-			case "expires", "expires-rfc850", "expires-asctime", "quoted-argument-mentions-max-age":
+			case "expires", "expires-rfc850", "expires-asctime", "quoted-argument-mentions-max-age", "quoted-argument-with-escaped-quote":
 				ok = res.CacheExpiresAt == exp.Unix()
 			case "max-age", "both":
 				ok = in(before+3600, after+3600)
@@ -852,6 +854,49 @@ func c16ClientSequences(c *mon.Ctx) {
 					if len(got) > 0 {
 						c.Failf("client:invalid-name-not-refused:userinfo", "%s for the invalid server name %q (err=%v) sent a request to %s (Host %q)", api, name, err, names[0], got[0].host)
 						return
+					}
+				}
+			})
+		}
+	}
+	// the same through the plain client's own entry points, which build their URLs in other ways: names that are no
+	// server names (userinfo, a trailing colon, a path, a query, a fragment behind a reachable address)
+	if c.Shard == 0 {
+		cl := fclient.NewClient(fclient.WithSkipVerify(true), fclient.WithWellKnownSRVLookups(true), fclient.WithTimeout(5*time.Second))
+		for _, name := range []string{"evil@" + names[0], "user:pw@" + names[0], names[0] + ":", names[0] + "/x", names[0] + "?x=", names[0] + "#", " " + names[0]} {
+			if v, _, _ := ref.ServerName(name); v == ref.Valid {
+				panic("harness: " + name + " is a valid server name")
+			}
+			c.Case("client:invalid-name-through-plain-client", map[string]any{"name": name}, func() {
+				c.Nontrivial("client-invalid|" + name[:len(name)-len(names[0])+1])
+				for api, call := range map[string]func(ctx context.Context) error{
+					"GetVersion":    func(ctx context.Context) error { _, err := cl.GetVersion(ctx, spec.ServerName(name)); return err },
+					"GetServerKeys": func(ctx context.Context) error { _, err := cl.GetServerKeys(ctx, spec.ServerName(name)); return err },
+					"LookupServerKeys": func(ctx context.Context) error {
+						_, err := cl.LookupServerKeys(ctx, spec.ServerName(name), map[gmsl.PublicKeyLookupRequest]spec.Timestamp{{ServerName: "a.example", KeyID: "ed25519:1"}: 0})
+						return err
+					},
+					"LookupUserInfo": func(ctx context.Context) error { _, err := cl.LookupUserInfo(ctx, spec.ServerName(name), "token"); return err },
+					"CreateMediaDownloadRequest": func(ctx context.Context) error {
+						resp, err := cl.CreateMediaDownloadRequest(ctx, spec.ServerName(name), "mediaid")
+						if resp != nil {
+							resp.Body.Close()
+						}
+						return err
+					},
+				} {
+					mu.Lock()
+					hits = nil
+					mu.Unlock()
+					ctx, cancel := context.WithTimeout(context.Background(), 5*time.Second)
+					err := call(ctx)
+					cancel()
+					mu.Lock()
+					got := append([]hit{}, hits...)
+					mu.Unlock()
+					c.Count("client_invalid_name_requests")
+					if len(got) > 0 {
+						c.Failf("client:invalid-name-not-refused:"+api, "%s for the invalid server name %q (err=%v) sent a request to %s (Host %q)", api, name, err, names[0], got[0].host)
 					}
 				}
 			})
